@@ -152,6 +152,43 @@ pub fn run() -> i32 {
             }
         }
     }
+    // 4. the adversarially trained long-symbol stream: also a liblzma-valid stream
+    for reps in [40usize, 110] {
+        let (prog, first) = super::corpus::adversarial_program(reps);
+        if std::env::var("VERIF_DEBUG").is_ok() {
+            let mut m = enc::Model::new(0, 0, 0).with_dict(1 << 20);
+            let mut rc = enc::RcEnc::new();
+            for s in &prog[..first] {
+                m.enc(&mut rc, *s);
+            }
+            if let Sym::M(d, l) = prog[first] {
+                for (name, p, b) in m.debug_match_path(d, l) {
+                    let pr = if b == 0 { p as f64 / 2048.0 } else { 1.0 - p as f64 / 2048.0 };
+                    eprintln!("    {:<12} prob0={:4} bit={} cost={:.2} bits", name, p, b, -pr.log2());
+                }
+            }
+        }
+        let mut p = prog.clone();
+        p.push(Sym::E);
+        let e = enc::encode(0, 0, 0, 1 << 20, &p);
+        assert!(e.bad.is_none());
+        let mut prev = 5usize;
+        let mut maxsym = 0usize;
+        for (c, _) in &e.table {
+            maxsym = maxsym.max(c - prev);
+            prev = *c;
+        }
+        let file = enc::lzma_file(0, 0, 0, 1 << 20, None, &e.payload);
+        n += 1;
+        match liblzma(&file) {
+            Ok(o) if o == e.expect => {}
+            other => {
+                eprintln!("bind: liblzma disagrees on the adversarial stream: {:?}", other.map(|o| o.len()));
+                fails += 1;
+            }
+        }
+        eprintln!("bind: adversarial stream reps={}: {} symbols, payload {} bytes, output {} bytes, first expensive symbol #{} at payload offset {}, longest symbol {} input bytes", reps, p.len(), e.payload.len(), e.expect.len(), first, e.table[first - 1].0, maxsym);
+    }
     if fails > 0 {
         eprintln!("bind: {} disagreement(s) in {} objects: model not bound", fails, n);
         2
